@@ -242,6 +242,31 @@ func liveRound(e *core.Env, round, per int, dns *svx.FakeDNS) {
 			uc.Close()
 		}
 	}
+	// ---- bursts of well-formed datagrams whose session can never be set up (the router rejects the target port):
+	// every datagram of the burst arrives while a session for that address is being started or torn down
+	for i, s := range servers {
+		if !s.o.UDP || (s.name != "socks" && s.name != "none") {
+			continue
+		}
+		for rep := 0; rep < 4; rep++ {
+			uc, err := net.ListenUDP("udp", &net.UDPAddr{IP: net.IPv4(127, 0, 0, 1)})
+			if err != nil {
+				continue
+			}
+			dst := netip.MustParseAddrPort(fmt.Sprintf("127.0.0.1:%d", p[i]))
+			pkt := []byte{1, 10, 9, 9, 9, 0, 2, 'x'} // 10.9.9.9:2, a port the "bits" route rejects
+			if s.name == "socks" {
+				pkt = append([]byte{0, 0, 0}, pkt...)
+			}
+			rec.Begin("live", round, fmt.Sprintf("udp burst of rejected targets through %s", s.name))
+			for k := 0; k < 1500; k++ {
+				uc.WriteToUDPAddrPort(pkt, dst)
+				blasted++
+			}
+			uc.Close()
+		}
+		rec.Count("rejected_target_bursts", 4)
+	}
 	// ---- hostile remote: what a target returns is network input too. A remote on port 53 (the source the default
 	// padding policy treats specially) answers one request with replies of every size around the client's budget,
 	// plus some that only fit the receive buffer or nothing at all. Whether a reply is delivered is not judged here.
